@@ -38,10 +38,26 @@ def rule_r1(ck, prog, rule='C16.R1', injectors=INJECTORS):
         g = Graph(prog, f, inline=lambda caller, call, callee, depth: callee.qn.startswith(('opentelemetry::trace::propagation::', 'canary::c16::')) and not call.get('virt'),
                   sync_lambdas=False, max_depth=2)
         sink = None
+        sinks = []       # every store into the sampling position (several when the value is chosen by if/else)
         if pos is not None:
+            alias = {}   # `char *const p = &buf[K]` -> K
+            for m in f.nodes:
+                if m['k'] == 'declstmt':
+                    for d in m['decls']:
+                        if d.get('init') is not None and d['init'] >= 0 and d['t'].replace('const', '').replace(' ', '') == 'char*':
+                            a_ = strip_casts(f, d['init'])
+                            if a_['k'] == 'unop' and a_['op'] == '&' and strip_casts(f, a_['e'])['k'] == 'subscript' and \
+                                    f.nodes[strip_casts(f, a_['e'])['index']].get('v') is not None:
+                                alias[d['id']] = f.nodes[strip_casts(f, a_['e'])['index']]['v']
             for n in f.nodes:
-                if n['k'] == 'binop' and n['op'] == '=' and f.nodes[n['lhs']]['k'] == 'subscript' and f.nodes[f.nodes[n['lhs']]['index']].get('v') == pos:
-                    sink = n['rhs']
+                if n['k'] == 'binop' and n['op'] == '=' and f.nodes[n['lhs']]['k'] == 'subscript':
+                    sb = f.nodes[n['lhs']]
+                    iv = f.nodes[sb['index']].get('v')
+                    off = alias.get(strip_casts(f, sb['base']).get('id'), 0)
+                    if iv is not None and iv + off == pos:
+                        sinks.append(n)
+            if sinks:
+                sink = sinks[0]['rhs']
         else:
             for n in f.nodes:
                 if n['k'] == 'call' and n.get('virt') and strip_targs(n.get('c', '')).endswith('TextMapCarrier::Set') and len(n.get('args', [])) == 2 and \
@@ -66,7 +82,23 @@ def rule_r1(ck, prog, rule='C16.R1', injectors=INJECTORS):
             return None
         ok = not whole and sink is not None
         why = 'the injector reads the whole flags byte (%s)' % strip_targs(whole[0]['c']).rsplit('::', 1)[-1] if whole else 'the value written to the sampling field was not found'
-        if ok:
+        if ok and len(sinks) > 1:
+            # the stores are alternatives: per scenario, the values of the stores that are feasible with IsSampled() pinned
+            from ..symb import feasible_reach
+            from .common import call_pins
+            is_s = lambda ff, cn: strip_targs(cn.get('c', '')).rsplit('::', 1)[-1] == 'IsSampled'
+            got = {}
+            for sc_ in (True, False):
+                vals = set()
+                for n in sinks:
+                    pt = g.point_of.get((id(g.root_ctx), n['i']))
+                    if pt is not None and feasible_reach(g, [g.entry], [pt], pins=call_pins(g, is_s, sc_)) is not None:
+                        vals |= scenario_sources(g, f, n['rhs'], g.root_ctx, {'sampled': sc_}, atom_role, classify)
+                got[sc_] = vals
+            got_t, got_f = got[True], got[False]
+            ok = got_t == {'lit:%d' % ord('1')} and got_f == {'lit:%d' % ord('0')}
+            why = 'the sampling field is not IsSampled() ? \'1\' : \'0\' (sampled: %s, not sampled: %s)' % (sorted(got_t), sorted(got_f))
+        elif ok:
             got_t = scenario_sources(g, f, sink, g.root_ctx, {'sampled': True}, atom_role, classify)
             got_f = scenario_sources(g, f, sink, g.root_ctx, {'sampled': False}, atom_role, classify)
             ok = got_t == {'lit:%d' % ord('1')} and got_f == {'lit:%d' % ord('0')}
